@@ -130,6 +130,10 @@ func (c WTLengthSliceWrapper) Read(data []byte, ptr unsafe.Pointer, wt plenccore
 	if n < 0 {
 		return 0, fmt.Errorf("corrupt data looking for WTSlice count")
 	}
+	// Every entry takes at least one byte for its length
+	if count > uint64(len(data)-n) {
+		return 0, fmt.Errorf("WTSlice count %d exceeds data length", count)
+	}
 
 	// Now make sure we have enough capacity in the slice
 	h := (*sliceHeader)(ptr)
